@@ -1043,7 +1043,7 @@ class PolarsModel(data_algebra.data_model.DataModel):
         if how != "right":
             coalesce_columns = set(op.sources[0].columns_produced()).intersection(
                 op.sources[1].columns_produced()
-            ) - set(op.on_a)
+            ) - set([ka for ka, kb in zip(op.on_a, op.on_b) if ka == kb])
             orphan_keys = [c for c in op.on_b if c not in set(op.on_a)]
             input_right = inputs[1]
             if len(orphan_keys) > 0:
@@ -1073,7 +1073,7 @@ class PolarsModel(data_algebra.data_model.DataModel):
             # simulate right join with left join
             coalesce_columns = set(op.sources[0].columns_produced()).intersection(
                 op.sources[1].columns_produced()
-            ) - set(op.on_b)
+            ) - set([ka for ka, kb in zip(op.on_a, op.on_b) if ka == kb])
             orphan_keys = [c for c in op.on_a if c not in set(op.on_b)]
             input_right = inputs[0]
             if len(orphan_keys) > 0:
